@@ -264,6 +264,9 @@ def module_facts(rep, rule, prog, cg):
             continue
         bits = SPEC[s][2]
         ops = [(x[1], x[3]) for x in subexprs(t) if x[0] == 'bin']
+        for x in subexprs(t):
+            if x[0] == 'call' and len(x[2]) == 2 and re.search(r'::(shl|shr)$', x[1]):
+                ops.append(('Shl' if x[1].endswith('shl') else 'Shr', x[2][1]))
         has_xor = any(o[0] == 'BitXor' for o in ops)
         shl1 = any(o[0] in ('Shl', 'ShlWithOverflow') and o[1] == ('const', 1) for o in ops)
         shr = any(o[0] in ('Shr', 'ShrWithOverflow') and o[1] == ('const', bits - 1) for o in ops)
@@ -315,6 +318,9 @@ def module_facts(rep, rule, prog, cg):
                                 tags.setdefault(nm or show(nosite(f))[:40], set()).add(c0[1])
             kt = {v for k, vs in tags.items() if 'key' in str(k) for v in vs}
             vt = {v for k, vs in tags.items() if 'val' in str(k) for v in vs}
+            if not kt and not vt and len(tags) == 2 and sorted(map(sorted, tags.values())) == [[1], [2]]:
+                # closure-captured callees (names erased): two distinct callees, one used with tag 1 and the other with tag 2
+                kt, vt = {1}, {2}
             if kt == {1} and vt == {2}:
                 rep.ok(rule, key, 'key encoded with tag 1, value with tag 2', bs[0].loc())
             else:
